@@ -172,6 +172,10 @@ class DiameterAssociation(object):
         self.transport.close()
         self.transport = None
 
+        #: Whoever is blocked waiting for a message has to be released, no
+        #: matter the reason why the association has been closed.
+        self.postprocess_recv_messages_ready.set()
+
 
     def recv_message_from_queue(self) -> None:
         while not self._stop_threads and self.transport:
